@@ -15,7 +15,7 @@ def steps_and_tags(results):
     return tags
 
 
-def evaluate(ctx, cases, prefix):
+def evaluate(ctx, cases, prefix, hardware=False):
     """Run every case on the real Executor, then the model (Exec) and the
     reference semantics (Sem) inside coqc on the same inputs.
     Returns (exec_mismatch, sem_mismatch, open_) lists of case indices, or None if
@@ -33,7 +33,7 @@ def evaluate(ctx, cases, prefix):
     files = {}
     for k in range(0, len(cases), SHARD):
         fn = f"cases_{prefix}_{k // SHARD}.v"
-        H.write_case_file(os.path.join(ctx.build, fn), coq_cases[k:k + SHARD])
+        H.write_case_file(os.path.join(ctx.build, fn), coq_cases[k:k + SHARD], hardware=hardware)
         files[fn] = k
     out = ([], [], [])
     ok = True
@@ -115,7 +115,8 @@ def generate_hardware(ctx, n_random, n_aimed, fuel):
     set_is_using_hardware(True): the listed semantics must hold in that configuration too"""
     cases = generate(ctx, n_random, n_aimed, fuel)
     for c in cases:
-        H.narrow_case(c)
+        if ctx.rng.random() < 0.6:
+            H.narrow_case(c)          # all immediates inside the width; the others keep 2^31 / 2^64-sized values
         c["hardware"] = True
         c["tag"] = "hw:" + c.get("tag", "")
     return cases
@@ -162,8 +163,8 @@ def run(ctx):
                       "unsatisfied wait_* never completes (observed as 'blocked' through _do_wait)")
     ctx.assume.append("quantum instruction effects, EPR instructions, hardware-mode width checks (get_is_using_hardware) "
                       "and logging are outside this property's model; the physical qubit chosen by qalloc is not compared")
-    ctx.assume.append("hardware configuration pass: only cases whose values stay inside the 32-bit widths are compared "
-                      "(a case in which a value overflows -- OverflowError -- is discarded and counted)")
+    ctx.assume.append("hardware configuration pass: run with set_is_using_hardware(True) (reset in try/finally) and "
+                      "compared with the models under cfg_hardware (HwExec / HwSem: width checks, OverflowError = FOverflow)")
     ctx.assume.append("Python without -O: the executor's `assert x is not None` checks are active")
     stats, kinds = {}, {}
     if res is not None:
@@ -199,15 +200,15 @@ def run(ctx):
     # hardware configuration (get_is_using_hardware() on): values that fit the widths behave as specified
     hcases = generate_hardware(ctx, 500 if quick else 5000, 4 if quick else 30, fuel)
     n_h = len(hcases)
-    hres = evaluate(ctx, hcases, "hardware")
+    hres = evaluate(ctx, hcases, "hardware", hardware=True)
     if hres is not None:
         hopen = set(hres[2])
         for i, c in enumerate(hcases):
             ctx.note_case(("hw", c["cap"], json.dumps(c["subs"])),
                           nontrivial=(sum(len(p) for p in c["subs"]) >= 3 and i not in hopen))
         for i in hres[1]:
-            ctx.violation("hardware configuration: reference semantics (Sem.run) and the real Executor disagree "
-                          "inside the defined domain on values that fit the hardware widths",
+            ctx.violation("hardware configuration: reference semantics (HwSem.hrun cfg_hardware) and the real Executor "
+                          "disagree inside the defined domain",
                           case_json(hcases[i]), key=None)
         if hres[0] and not hres[1]:
             ctx.broken.append(f"correspondence Exec.run_many vs real Executor (hardware configuration): "
@@ -277,7 +278,7 @@ def replay(ctx, path):
         if qres is None or qres[0]:
             ctx.violation("SemQ and the real Executor disagree inside the domain", case_json(case))
         return ctx.finish()
-    res = evaluate(ctx, [case], "replay")
+    res = evaluate(ctx, [case], "replay", hardware=bool(case.get("hardware")))
     print("replay: implementation:", json.dumps([dict(out=r["out"], pc=r["pc"]) for r in case["results"]]))
     print("replay: (model mismatch, spec mismatch in domain, open) =", res)
     if res is None or res[1]:
